@@ -137,17 +137,17 @@ theorem wf_generic (S : Schema) (g : Option Nat) : ({ S with generic := g } : Sc
 /-! ### the motives -/
 
 def RtVal (S : Schema) (v : Val) : Prop :=
-  ∀ (ty : Ty) (e rest : Bytes) (fuel : Nat), encTy S ty v = some e → v.size ≤ fuel →
-    decTy S fuel ty (e ++ rest) = .ok (v, rest)
+  ∀ (ty : Ty) (e rest : Bytes) (fuel d : Nat), encTy S ty v = some e → v.size ≤ fuel → v.depth ≤ d →
+    decTy S fuel d ty (e ++ rest) = .ok (v, rest)
 
 def RtFields (S : Schema) (vs : Vals) : Prop :=
-  ∀ (env : List Nat) (flds : List Field) (e rest : Bytes) (fuel : Nat),
-    encFields S env flds vs = some e → vs.size ≤ fuel →
-    decFields S fuel env flds (e ++ rest) = .ok (vs, rest)
+  ∀ (env : List Nat) (flds : List Field) (e rest : Bytes) (fuel d : Nat),
+    encFields S env flds vs = some e → vs.size ≤ fuel → vs.depth ≤ d →
+    decFields S fuel d env flds (e ++ rest) = .ok (vs, rest)
 
 def RtElems (S : Schema) (vs : Vals) : Prop :=
-  ∀ (t : Ty) (e rest : Bytes) (fuel : Nat), encElems S t vs = some e → vs.size ≤ fuel →
-    decElems S fuel t vs.length (e ++ rest) = .ok (vs, rest)
+  ∀ (t : Ty) (e rest : Bytes) (fuel d : Nat), encElems S t vs = some e → vs.size ≤ fuel → vs.depth ≤ d →
+    decElems S fuel d t vs.length (e ++ rest) = .ok (vs, rest)
 
 def RtVals (S : Schema) (vs : Vals) : Prop := RtFields S vs ∧ RtElems S vs
 
@@ -161,7 +161,7 @@ theorem getBareLen_put (n : Nat) (rest : Bytes) (h : n < 2 ^ 31) :
 /-! ### cases of the induction -/
 
 theorem rt_num (S : Schema) (n : Nat) : RtVal S (.num n) := by
-  intro ty e rest fuel he hf
+  intro ty e rest fuel d he hf hd
   cases fuel with
   | zero => simp [Val.size] at hf
   | succ f =>
@@ -174,7 +174,7 @@ theorem rt_num (S : Schema) (n : Nat) : RtVal S (.num n) := by
       simp [decTy, getU64_putU64 n rest h1]
 
 theorem rt_raw (S : Schema) (b : Bytes) : RtVal S (.raw b) := by
-  intro ty e rest fuel he hf
+  intro ty e rest fuel d he hf hd
   cases fuel with
   | zero => simp [Val.size] at hf
   | succ f =>
@@ -187,7 +187,7 @@ theorem rt_raw (S : Schema) (b : Bytes) : RtVal S (.raw b) := by
       simp [decTy, getBytes_putBytes b rest h1]
 
 theorem rt_bool (S : Schema) (b : Bool) : RtVal S (.bool b) := by
-  intro ty e rest fuel he hf
+  intro ty e rest fuel d he hf hd
   cases fuel with
   | zero => simp [Val.size] at hf
   | succ f =>
@@ -196,16 +196,18 @@ theorem rt_bool (S : Schema) (b : Bool) : RtVal S (.bool b) := by
     simp [decTy, getBool_putBool b rest]
 
 theorem rt_absent (S : Schema) : RtVal S .absent := by
-  intro ty e rest fuel he hf
+  intro ty e rest fuel d he hf hd
   cases ty <;> simp [encTy] at he
 
 theorem rt_obj (S : Schema) (hwf : S.wf = true) (c : Nat) (fs : Vals) (ih : RtVals S fs) :
     RtVal S (.obj c fs) := by
-  intro ty e rest fuel he hf
+  intro ty e rest fuel d he hf hd
   cases fuel with
   | zero => simp [Val.size] at hf
   | succ f =>
     have hf' : fs.size ≤ f := by simp [Val.size] at hf; omega
+    have hd' : fs.depth + 1 ≤ d := by simpa [Val.depth] using hd
+    have hd0 : fs.depth ≤ d := by omega
     cases ty with
     | boxed i =>
       simp only [encTy] at he
@@ -225,8 +227,9 @@ theorem rt_obj (S : Schema) (hwf : S.wf = true) (c : Nat) (fs : Vals) (ih : RtVa
               simp only [hef, Option.some.injEq] at he
               subst he
               obtain ⟨hfind, hlt⟩ := wf_find hwf hi hc hid
+              obtain ⟨d', rfl⟩ : ∃ d', d = d' + 1 := ⟨d - 1, by omega⟩
               simp only [decTy, List.append_assoc, getU32_putU32 id _ hlt, hfind, hc,
-                ih.1 [] ct.fields ef rest f hef hf']
+                ih.1 [] ct.fields ef rest f d' hef hf' (by omega)]
       · exact absurd he (by simp)
     | ctor c0 bare =>
       simp only [encTy] at he
@@ -245,7 +248,7 @@ theorem rt_obj (S : Schema) (hwf : S.wf = true) (c : Nat) (fs : Vals) (ih : RtVa
             | true =>
               simp only [if_true, Option.some.injEq] at he
               subst he
-              simp only [decTy, hc, if_true, ih.1 [] ct.fields ef rest f hef hf']
+              simp only [decTy, hc, if_true, ih.1 [] ct.fields ef rest f d hef hf' hd0]
             | false =>
               simp only [Bool.false_eq_true, if_false] at he
               cases hid : ct.id with
@@ -255,7 +258,7 @@ theorem rt_obj (S : Schema) (hwf : S.wf = true) (c : Nat) (fs : Vals) (ih : RtVa
                 subst he
                 have hlt := wf_id_lt hwf hc hid
                 simp only [decTy, hc, Bool.false_eq_true, if_false, hid, List.append_assoc,
-                  consumeID_putU32 id _ hlt, ih.1 [] ct.fields ef rest f hef hf']
+                  consumeID_putU32 id _ hlt, ih.1 [] ct.fields ef rest f d hef hf' hd0]
       · exact absurd he (by simp)
     | generic =>
       simp only [encTy] at he
@@ -276,16 +279,17 @@ theorem rt_obj (S : Schema) (hwf : S.wf = true) (c : Nat) (fs : Vals) (ih : RtVa
               subst he
               have hlt := wf_id_lt hwf hc hid
               simp only [decTy, hg, hc, hid, List.append_assoc,
-                consumeID_putU32 id _ hlt, ih.1 [] ct.fields ef rest f hef hf']
+                consumeID_putU32 id _ hlt, ih.1 [] ct.fields ef rest f d hef hf' hd0]
       · exact absurd he (by simp)
     | _ => simp [encTy] at he
 
 theorem rt_vec (S : Schema) (xs : Vals) (ih : RtVals S xs) : RtVal S (.vec xs) := by
-  intro ty e rest fuel he hf
+  intro ty e rest fuel d he hf hd
   cases fuel with
   | zero => simp [Val.size] at hf
   | succ f =>
     have hf' : xs.size ≤ f := by simp [Val.size] at hf; omega
+    have hd0 : xs.depth ≤ d := by simpa [Val.depth] using hd
     cases ty with
     | vec bareHdr t =>
      simp only [encTy] at he
@@ -299,16 +303,16 @@ theorem rt_vec (S : Schema) (xs : Vals) (ih : RtVals S xs) : RtVal S (.vec xs) :
         cases bareHdr with
         | true =>
           simp only [decTy, if_true, List.append_assoc, getBareLen_put _ _ hlen,
-            ih.2 t ee rest f hee hf']
+            ih.2 t ee rest f d hee hf' hd0]
         | false =>
           simp only [decTy, Bool.false_eq_true, if_false, List.append_assoc,
-            getVectorHeader_put _ _ hlen, ih.2 t ee rest f hee hf']
+            getVectorHeader_put _ _ hlen, ih.2 t ee rest f d hee hf' hd0]
      · exact absurd he (by simp)
     | _ => simp [encTy] at he
 
 theorem rt_nil (S : Schema) : RtVals S .nil := by
   constructor
-  · intro env flds e rest fuel he hf
+  · intro env flds e rest fuel d he hf hd
     cases fuel with
     | zero => simp [Vals.size] at hf
     | succ f =>
@@ -318,7 +322,7 @@ theorem rt_nil (S : Schema) : RtVals S .nil := by
         subst he
         simp [decFields]
       | cons a as => simp [encFields] at he
-  · intro t e rest fuel he hf
+  · intro t e rest fuel d he hf hd
     cases fuel with
     | zero => simp [Vals.size] at hf
     | succ f =>
@@ -329,12 +333,14 @@ theorem rt_nil (S : Schema) : RtVals S .nil := by
 theorem rt_cons (S : Schema) (v : Val) (vs : Vals) (ihv : RtVal S v) (ihs : RtVals S vs) :
     RtVals S (.cons v vs) := by
   constructor
-  · intro env flds e rest fuel he hf
+  · intro env flds e rest fuel d he hf hd
     cases fuel with
     | zero => simp [Vals.size] at hf
     | succ f =>
       have hfv : v.size ≤ f := by simp [Vals.size] at hf; omega
       have hfs : vs.size ≤ f := by simp [Vals.size] at hf; omega
+      have hdv : v.depth ≤ d := by simp only [Vals.depth] at hd; omega
+      have hds : vs.depth ≤ d := by simp only [Vals.depth] at hd; omega
       cases flds with
       | nil => simp [encFields] at he
       | cons fld fs =>
@@ -350,7 +356,7 @@ theorem rt_cons (S : Schema) (v : Val) (vs : Vals) (ihv : RtVal S v) (ihs : RtVa
             · rename_i hb
               have := bool?_eq hb
               subst this
-              simp only [ihs.1 env fs e rest f he hfs]
+              simp only [ihs.1 env fs e rest f d he hfs hds]
             · exact absurd he (by simp)
           · simp only [htf, if_false] at he ⊢
             cases hp : hasBit (envWord env k) bit with
@@ -365,8 +371,8 @@ theorem rt_cons (S : Schema) (v : Val) (vs : Vals) (ihv : RtVal S v) (ihs : RtVa
                 | some e2 =>
                   simp only [h2, Option.some.injEq] at he
                   subst he
-                  simp only [List.append_assoc, ihv fld.ty e1 (e2 ++ rest) f h1 hfv,
-                    ihs.1 env fs e2 rest f h2 hfs]
+                  simp only [List.append_assoc, ihv fld.ty e1 (e2 ++ rest) f d h1 hfv hdv,
+                    ihs.1 env fs e2 rest f d h2 hfs hds]
             | false =>
               simp only [hp, Bool.false_eq_true, if_false] at he ⊢
               cases ha : v.isAbsent with
@@ -375,7 +381,7 @@ theorem rt_cons (S : Schema) (v : Val) (vs : Vals) (ihv : RtVal S v) (ihs : RtVa
                 simp only [ha, if_true] at he
                 have := isAbsent_eq ha
                 subst this
-                simp only [ihs.1 env fs e rest f he hfs]
+                simp only [ihs.1 env fs e rest f d he hfs hds]
         | none =>
           simp only [hcond] at he ⊢
           by_cases hfl : fld.ty = .flags
@@ -392,7 +398,7 @@ theorem rt_cons (S : Schema) (v : Val) (vs : Vals) (ihv : RtVal S v) (ihs : RtVa
                 simp only [h2, Option.some.injEq] at he
                 subst he
                 simp only [List.append_assoc, getU32_putU32 n _ hn,
-                  ihs.1 (env ++ [n]) fs e2 rest f h2 hfs]
+                  ihs.1 (env ++ [n]) fs e2 rest f d h2 hfs hds]
           · simp only [hfl, if_false] at he ⊢
             cases h1 : encTy S fld.ty v with
             | none => simp [h1] at he
@@ -403,14 +409,16 @@ theorem rt_cons (S : Schema) (v : Val) (vs : Vals) (ihv : RtVal S v) (ihs : RtVa
               | some e2 =>
                 simp only [h2, Option.some.injEq] at he
                 subst he
-                simp only [List.append_assoc, ihv fld.ty e1 (e2 ++ rest) f h1 hfv,
-                  ihs.1 env fs e2 rest f h2 hfs]
-  · intro t e rest fuel he hf
+                simp only [List.append_assoc, ihv fld.ty e1 (e2 ++ rest) f d h1 hfv hdv,
+                  ihs.1 env fs e2 rest f d h2 hfs hds]
+  · intro t e rest fuel d he hf hd
     cases fuel with
     | zero => simp [Vals.size] at hf
     | succ f =>
       have hfv : v.size ≤ f := by simp [Vals.size] at hf; omega
       have hfs : vs.size ≤ f := by simp [Vals.size] at hf; omega
+      have hdv : v.depth ≤ d := by simp only [Vals.depth] at hd; omega
+      have hds : vs.depth ≤ d := by simp only [Vals.depth] at hd; omega
       simp only [encElems] at he
       cases h1 : encTy S t v with
       | none => simp [h1] at he
@@ -421,8 +429,8 @@ theorem rt_cons (S : Schema) (v : Val) (vs : Vals) (ihv : RtVal S v) (ihs : RtVa
         | some e2 =>
           simp only [h2, Option.some.injEq] at he
           subst he
-          simp only [Vals.length, decElems, List.append_assoc, ihv t e1 (e2 ++ rest) f h1 hfv,
-            ihs.2 t e2 rest f h2 hfs]
+          simp only [Vals.length, decElems, List.append_assoc, ihv t e1 (e2 ++ rest) f d h1 hfv hdv,
+            ihs.2 t e2 rest f d h2 hfs hds]
 
 /-- Mutual induction over the value tree. -/
 theorem rt_all (S : Schema) (hwf : S.wf = true) : (∀ v, RtVal S v) ∧ (∀ vs, RtVals S vs) :=
